@@ -14,7 +14,7 @@ fn label_facts(stats: &mut Stats, f: &Facts) {
     lab!(
         index_reuse, reuse_before_maintain, stale_delete, failing_batch, batch_with_repeat, delete_all,
         dropped_builder, maintains, deaths, death_then_creation, stale_access_occupied_with_comp,
-        stale_access, multi_storage_death, multi_storage_death_then_reuse, lazy_actions_run, lazy_nested, lazy_chain_over_64,
+        stale_access, multi_storage_death, multi_storage_death_then_reuse, lazy_actions_run, lazy_nested, lazy_chain_over_64, maintain_inside_closure,
         lazy_dead_target, lazy_reused_target, overwrite_or_remove, live_comps_at_teardown
     );
     stats.label_n("ops_skipped_no_handle", f.skipped_ops as u64);
